@@ -9,7 +9,7 @@ FLAVOURS = {
     # name: (extra sim flags)
     "static": [],
     "dyn": ["-dyn"],
-    "faults": ["-faults"],
+    "faults": ["-faults", "-passfaults"],   # store writes of new events AND of ProcessDecidedRounds fail
     "dagrun": ["-dagrun"],
     "live": ["-live", "30", "-tail", "0"],
     "ff": ["-dyn", "-ff"],
